@@ -41,21 +41,34 @@ def run(ctx):
     ctx.rule('R2', 'some function reachable from outline_region / outline_pragma_regions references ReturnStmt')
     ctx.rule('R3', 'region mapped to the generated call; call arguments follow the new routine\'s dummy order')
     f = m.get_function(OL, 'outline_region')
+    # roles are read off the code: the three argument sets are the ones zipped with the intents ('in', 'inout', 'out');
+    # the atoms are the locals bound to region.uses_symbols / region.defines_symbols / the imported symbols
+    rpar = [a.arg for a in f.node.args.args][0]
+    roles = None
+    for z in ast.walk(f.node):
+        if isinstance(z, ast.Call) and X.call_name_of(z) == 'zip' and len(z.args) == 2 and isinstance(z.args[0], ast.Tuple) \
+                and [getattr(e, 'value', None) for e in z.args[0].elts] == ['in', 'inout', 'out'] and isinstance(z.args[1], ast.Tuple):
+            roles = [ast.unparse(e) for e in z.args[1].elts]
+    if not roles or len(roles) != 3:
+        raise AnalysisError('outline_region: the (in, inout, out) argument sets zipped with the intents were not found')
+    N_IN, N_IO, N_OUT = roles
+    un = (X.names_assigned_from(f.node, f'{rpar}.uses_symbols') or ['region_uses_symbols'])[0]
+    dn = (X.names_assigned_from(f.node, f'{rpar}.defines_symbols') or ['region_defines_symbols'])[0]
+    imn = (X.names_assigned_from(f.node, '.symbols', 'for ') or ['imported_symbols'])[0]
     exprs = {}
     for n in f.node.body:
-        if isinstance(n, ast.Assign) and isinstance(n.targets[0], ast.Name) and n.targets[0].id in \
-                ('region_in_args', 'region_inout_args', 'region_out_args') and n.targets[0].id not in exprs \
-                and isinstance(n.value, ast.BinOp):
+        if isinstance(n, ast.Assign) and isinstance(n.targets[0], ast.Name) and n.targets[0].id in roles \
+                and n.targets[0].id not in exprs and isinstance(n.value, ast.BinOp):
             exprs[n.targets[0].id] = n.value
-    if set(exprs) != {'region_in_args', 'region_inout_args', 'region_out_args'}:
+    if set(exprs) != set(roles):
         raise AnalysisError(f'outline_region: set expressions found for {sorted(exprs)} only')
-    atoms = ['region_uses_symbols', 'region_defines_symbols', 'imported_symbols']
+    atoms = [un, dn, imn]
     bad = []
     rows = 0
     for env, val in SA.table(exprs, atoms):
         rows += 1
         u, d, i = (env[a] for a in atoms)
-        IN, IO, OUT = val['region_in_args'], val['region_inout_args'], val['region_out_args']
+        IN, IO, OUT = val[N_IN], val[N_IO], val[N_OUT]
         if d and not i and not (OUT or IO):
             bad.append((env, 'defined in the region but neither out nor inout: the value is not passed back'))
         if u and not i and not (IN or IO):
@@ -76,7 +89,7 @@ def run(ctx):
         ctx.judge('R1', 'outline_region:argument-sets', facts=facts)
     # the symbol sets come from the region's dataflow properties
     src = ast.unparse(f.node)
-    ok = X.has(src, 'for s in region.uses_symbols') and X.has(src, 'for s in region.defines_symbols')
+    ok = f'in {rpar}.uses_symbols' in src and f'in {rpar}.defines_symbols' in src
     (ctx.judge('R1', 'sets taken from region.uses_symbols / defines_symbols') if ok else
      ctx.violation('R1', 'outline_region:dataflow-source', f.where, 'used/defined sets are not taken from the region node'))
     # ---- R2
@@ -95,13 +108,28 @@ def run(ctx):
     # ---- R3
     opr = m.get_function(OL, 'outline_pragma_regions')
     s2 = ast.unparse(opr.node)
-    ok = 'mapper[region]' in s2 or 'region: call' in s2 or '[region] = call' in s2
+    # the (call, new routine) pair returned by outline_region(<region>, ...) and a mapping <m>[<region>] = <call>
+    ok = False
+    for a_ in ast.walk(opr.node):
+        if isinstance(a_, ast.Assign) and isinstance(a_.value, ast.Call) and X.call_name_of(a_.value) == 'outline_region' \
+                and isinstance(a_.targets[0], ast.Tuple) and a_.value.args:
+            calln, regn = ast.unparse(a_.targets[0].elts[0]), ast.unparse(a_.value.args[0])
+            ok = ok or any(isinstance(b_, ast.Assign) and isinstance(b_.targets[0], ast.Subscript)
+                           and ast.unparse(b_.targets[0].slice) == regn and ast.unparse(b_.value) == calln for b_ in ast.walk(opr.node))
     (ctx.judge('R3', 'region replaced by the call') if ok else
      ctx.violation('R3', 'outline_pragma_regions:mapping', opr.where, 'the generated call is not mapped onto the outlined region'))
-    ok = X.has(src, 'call_arguments = tuple((call_arg_map[a.name] for a in region_routine_arguments))')
+    ran = None
+    for n_ in ast.walk(f.node):
+        if isinstance(n_, ast.Assign) and isinstance(n_.targets[0], ast.Attribute) and n_.targets[0].attr == 'arguments' \
+                and isinstance(n_.value, ast.Name):
+            ran = n_.value.id
+    ok = ran is not None and any(isinstance(c_, ast.GeneratorExp) and ast.unparse(c_.generators[0].iter) == ran
+                                 and isinstance(c_.generators[0].target, ast.Name) and not c_.generators[0].ifs
+                                 and isinstance(c_.elt, ast.Subscript) and ast.unparse(c_.elt.slice) == f'{c_.generators[0].target.id}.name'
+                                 for c_ in ast.walk(f.node))
     (ctx.judge('R3', 'call arguments follow dummy order') if ok else
      ctx.violation('R3', 'outline_region:argument-order', f.where, 'call arguments are not built in the order of the new routine\'s dummies'))
-    ok = X.has(src, 'region_routine.arguments = region_routine_arguments')
+    ok = ran is not None
     (ctx.judge('R3', 'dummy list set from the same sequence') if ok else
      ctx.violation('R3', 'outline_region:dummies', f.where, 'new routine\'s dummy list is not the sequence used for the call'))
 
